@@ -21,7 +21,9 @@
      g_now    mtime given to files created by copying
    Link primitive contract (dvc_objects): [link_node]; a hard link of an empty object is a fresh
    empty file; creating a symlink/hardlink over an existing path is skipped (FileExistsError is
-   swallowed by dvc_objects.fs.generic.transfer); a copy replaces the path (tmp + os.replace). *)
+   swallowed by dvc_objects.fs.generic.transfer); a copy replaces the path (tmp + os.replace).
+   Since /repo f4a117d every link is preceded by the guarded removal, so link_step only ever sees an
+   existing path after _remove returned early - the "existing path" branches are kept for fidelity. *)
 From Coq Require Import NArith List Bool.
 From DvcData Require Import Base.Val Base.PyBase Gen.PyTypes Gen.ODiff Gen.Relink.
 Import ListNotations.
@@ -167,12 +169,15 @@ Definition extra_modified (g : cfg) (ch : ochange_args) : bool :=
 
 (* ---------------------------------------------------------------- per-path steps *)
 
-Definition del_step (g : cfg) (ch : ochange_args) (cur : option fnode) : option (option fnode) :=
-  match remove_guard (g_force g) (TreeEntry_in_cache (c_old ch)) (is_some cur) (ask g (ch_key ch)) with
+(* _remove(path, fs, in_cache, force, prompt) : None = PromptError(path) *)
+Definition guard_step (g : cfg) (k : key) (inc : bool) (cur : option fnode) : option (option fnode) :=
+  match remove_guard (g_force g) inc (is_some cur) (ask g k) with
   | RmSkip => Some cur
   | RmRaise => None
   | RmRemove => Some None
   end.
+Definition del_step (g : cfg) (ch : ochange_args) (cur : option fnode) : option (option fnode) :=
+  guard_step g (ch_key ch) (TreeEntry_in_cache (c_old ch)) cur.
 
 Definition link_node (t : lkind) (o : oid) (co : cobj) (now : N) : fnode :=
   match t with
@@ -235,7 +240,11 @@ Definition file_step (g : cfg) (c : cache) (ch : ochange_args) (cur : option fno
       post_info
         match cf_decide (truthy_oid (c_old ch)) (g_relink g) (file_is_copy ch)
                         (opt_eqb hashinfo_eqb (t_oid (c_new ch)) (t_oid (c_old ch))) (cache_is_copy g) with
-        | CfLink => link_step g c o cur
+        | CfLink => (* since f4a117d: an existing path without an old entry is guarded as "not in cache" *)
+                    match guard_step g (ch_key ch) false cur with
+                    | None => FPrompt
+                    | Some cur1 => link_step g c o cur1
+                    end
         | CfUnprotect => FOk cur
         | CfRelink => match del_step g ch cur with
                       | None => FPrompt
